@@ -235,8 +235,10 @@ func RunReplay(p Profile, cfg Config, steps []Step) *RunResult {
 }
 
 // Shrink minimises a failing schedule with ddmin over the steps, keeping only
-// candidates that fail with the same oracle and signature.
-func Shrink(p Profile, cfg Config, steps []Step, want *Violation, budget time.Duration) ([]Step, *Violation, int) {
+// candidates that fail with the same oracle and signature. run executes a
+// candidate (the orchestrator passes a function that replays it in a FRESH
+// process, so that minimisation cannot be fooled by process-global state).
+func Shrink(p Profile, cfg Config, steps []Step, want *Violation, budget time.Duration, run func([]Step) *Violation) ([]Step, *Violation, int) {
 	deadline := time.Now().Add(budget)
 	tries := 0
 	cur := append([]Step(nil), steps...)
@@ -245,11 +247,14 @@ func Shrink(p Profile, cfg Config, steps []Step, want *Violation, budget time.Du
 		cur = cur[:want.Step+1]
 	}
 	curV := want
+	if run == nil {
+		run = func(c []Step) *Violation { return RunReplay(p, cfg, c).Violation }
+	}
 	fails := func(c []Step) *Violation {
 		tries++
-		r := RunReplay(p, cfg, c)
-		if r.Violation != nil && r.Violation.Oracle == want.Oracle && r.Violation.Signature == want.Signature {
-			return r.Violation
+		v := run(c)
+		if v != nil && v.Oracle == want.Oracle && v.Signature == want.Signature {
+			return v
 		}
 		return nil
 	}
